@@ -203,7 +203,12 @@ def case_st(draw):
         cands |= {M - 1, M, M + 1, M + B - 1, M + B, M + B + 1, 3 * M + 2, M + 2 * B}
     cands = sorted(c for c in cands if 0 <= c <= 20000)
     S = draw(st.sampled_from(cands) | st.integers(0, 700))
-    if kind.startswith('mp_') and M is not None:
+    if kind == 'mp_file':
+        # the header block of the part (~100 bytes) must fit the in-memory budget; the interesting side is file content >> B
+        B = draw(st.sampled_from([128, 256, 4096]))
+        S = draw(st.sampled_from([0, 1, B - 1, B, B + 1, 2 * B, 5 * B + 3]) | st.integers(0, 3 * B))
+        M = draw(st.sampled_from([None, None, S + 150, S + 400, S, 20000]))
+    elif kind.startswith('mp_') and M is not None:
         # multipart bodies carry ~100 bytes of framing: move M along so that the edges are still hit
         M = M + draw(st.sampled_from([0, 60, 101, 120]))
     case = {'kind': kind, 'S': S, 'M': M, 'B': B, 'nparts': draw(st.integers(1, 2)),
